@@ -72,7 +72,7 @@ def make_batch(case):
 
 def site_cloud(la, lo):
     """A pure function of the event's site: cloud tops between 0.5 and 12.5 km."""
-    return 0.5 + (float(la) * 2.7) % 12.0
+    return 0.5 + ((float(la) + 3.0) * 2.7) % 12.0
 
 
 def reference(det, beta, alt, E, lat, lon, dtype="float32", cloudf=None):
@@ -290,6 +290,59 @@ def body_interleaved(case):
     return labels
 
 
+def _sweep_cases(tier):
+    """Every pre-emption point of the first partition of one small batch, in chunks that are dealt to the worker processes."""
+    import os
+
+    seed = int(os.environ.get("VERIF_SEED", "1") or "1")
+    confs = [(525.0, "float32"), (33.0, "float32")] if tier == "quick" else [(525.0, "float32"), (33.0, "float32"), (2000.0, "float64"), (33.0, "float64")]
+    for det, dtype in confs:
+        for k0 in range(0, 640, 40):
+            yield {"det": det, "dtype": dtype, "k0": k0, "k1": k0 + 40, "geo": [(seed * 5 + 3) % 36, (seed * 11 + 7) % 36], "energies": [1.0, 2.5, 0.3, 3.1], "shared_site": (seed + k0 // 40) % 2 == 0}
+
+
+def body_sweep(case):
+    """One small batch (two partitions of two events, cloud tops by site) under the pre-empting scheduler for EVERY
+    pre-emption point of the chunk: a window one source line wide (a memo key written one line before its value) is
+    found, which generated points hit with probability 1/600."""
+    import dask
+
+    from nuspacesim.simulation.eas_optical import cphotang
+
+    from ..interleave import preempting_dask_get
+
+    det, dtype = case["det"], case["dtype"]
+    gi = [case["geo"][0], case["geo"][0], case["geo"][1], case["geo"][1]]
+    beta = np.array([POOL_BETA[g % len(POOL_BETA)] for g in gi])
+    alt = np.array([1.0, 2.0, 1.5, 2.5])  # showers that start below every cloud top of site_cloud: the cloud matters
+    E = np.array([energy(x) for x in case["energies"]])
+    lat = np.zeros(4) if case["shared_site"] else np.array([0.0, 1.0, 0.0, 2.0])
+    lon = -lat
+    want_d, want_c = reference(det, beta, alt, E, lat, lon, dtype, site_cloud)
+    k = kernel(det, dtype)
+    real = cphotang.db.from_sequence
+    cphotang.db.from_sequence = lambda seq, partition_size=None, npartitions=None: real(seq, partition_size=2)
+    labels = set()
+    try:
+        for kk in range(case["k0"], case["k1"]):
+            stats = {}
+            with dask.config.set(scheduler=preempting_dask_get(kk, stats)), quiet():
+                with cut(f"CphotAng.__call__ (4 events in 2 partitions, first partition suspended after {kk} lines)"):
+                    d, c = k(beta, alt, E, lat, lon, site_cloud)
+            d, c = np.asarray(d), np.asarray(c)
+            require(
+                d.shape == want_d.shape and d.tobytes() == want_d.tobytes() and c.tobytes() == want_c.tobytes(),
+                f"batch result differs from one-at-a-time evaluation when the first partition is suspended after {kk} of {stats.get('lines_first_task')} package lines while the second partition runs "
+                f"(detector {det} km, {dtype}, sites {lat.tolist()}, cloud tops {[site_cloud(x, 0) for x in lat]}): densities {d.tolist()} vs {want_d.tolist()}",
+            )
+            if stats.get("preempted"):
+                labels.add("partition_preempted")
+    finally:
+        cphotang.db.from_sequence = real
+    labels.add("shared_site" if case["shared_site"] else "distinct_sites")
+    return labels
+
+
 def batch_strategy(max_n, scheds):
     return st.fixed_dictionaries(
         {
@@ -316,7 +369,7 @@ SUBCHECKS = [
         batch_strategy(260, ["harness", "harness", "harness", "sync"]),
         body_equal,
         lambda labels: "non_identity_order" in labels,
-        {"quick": 64, "thorough": 1600},
+        {"quick": 48, "thorough": 1600},
         doc="harness-owned scheduler: partition tasks executed in a drawn priority order; batch == one-at-a-time bit for bit; object state unchanged",
         shrink=False,
     ),
@@ -334,7 +387,7 @@ SUBCHECKS = [
         ),
         body_interleaved,
         lambda labels: "preempted" in labels,
-        {"quick": 60, "thorough": 2400},
+        {"quick": 40, "thorough": 2400},
         doc="harness-owned thread schedule: evaluation A on a kernel object is suspended after its k-th package line (k generated), evaluation B (other geometry, energy, cloud top) runs on the same object, A resumes; both == their results on their own, bit for bit",
         shrink=False,
     ),
@@ -343,9 +396,18 @@ SUBCHECKS = [
         batch_strategy(30, ["preempt2"]).map(lambda c: dict(c, psize=c["psize"] if c["psize"] in (1, 2, 7) else 2, n=c["n"] if c["n"] >= 5 else 5, clouds=True)),
         body_equal,
         lambda labels: "partition_preempted" in labels,
-        {"quick": 48, "thorough": 1600},
+        {"quick": 24, "thorough": 1600},
         doc="harness-owned two-worker scheduler: the first partition task is suspended after its k-th package line (k generated), the second partition runs to completion, the first resumes; site-dependent cloud tops, shared sites; batch == one-at-a-time bit for bit",
         shrink=False,
+    ),
+    SubCheck(
+        "preemption_sweep",
+        None,
+        body_sweep,
+        lambda labels: "partition_preempted" in labels,
+        {"quick": 1},
+        doc="EVERY pre-emption point (0..639 package lines) of the first partition of one small batch under the harness-owned two-worker scheduler, for 2 (thorough: 4) kernel configurations, shared and distinct sites; enumerated in chunks dealt to the worker processes",
+        exhaustive=_sweep_cases,
     ),
     SubCheck(
         "threads",
@@ -373,7 +435,7 @@ SUBCHECKS = [
         ),
         body_fault,
         lambda labels: "fault_after_first_partition" in labels or "multi_partition" in labels,
-        {"quick": 64, "thorough": 1600},
+        {"quick": 48, "thorough": 1600},
         doc="cloud call-back raises a generated exception type at a generated event position: the batch call must raise (synchronous, harness order, threads)",
         shrink=False,
     ),
